@@ -114,17 +114,65 @@ class KdfTap:
 
 @contextlib.contextmanager
 def clock(module: t.Any, unix_ns: t.Union[int, t.Callable[[], int]]):
-    """Replace the `time` name seen by `module` (e.g. dpapi_ng._client) with a fake whose
-    time_ns() returns the given instant.  The global time module is untouched."""
-    real = module.time
-    fake = types.SimpleNamespace(**{k: getattr(real, k) for k in dir(real) if not k.startswith("__")})
-    fake.time_ns = (lambda: unix_ns) if isinstance(unix_ns, int) else unix_ns
-    fake.time = lambda: fake.time_ns() / 1e9
-    module.time = fake
+    """The wall clock as the library sees it.  The `time` name seen by `module` (e.g. dpapi_ng._client) is replaced by a fake
+    whose time_ns() / time() return the given instant; the global time module is untouched.  So that the way the library reads
+    the clock is not part of what the checks depend on, the same instant is also what `datetime.datetime.now()/utcnow()/today()`
+    return inside the library's modules, and if `module` no longer has a `time` name (it reads the clock some other way) the
+    functions of the global time module are replaced for the duration instead."""
+    read = (lambda: unix_ns) if isinstance(unix_ns, int) else unix_ns
+    with contextlib.ExitStack() as st:
+        real = getattr(module, "time", None)
+        if real is not None and hasattr(real, "time_ns"):
+            fake = types.SimpleNamespace(**{k: getattr(real, k) for k in dir(real) if not k.startswith("__")})
+            fake.time_ns = read
+            fake.time = lambda: read() / 1e9
+            module.time = fake
+            st.callback(setattr, module, "time", real)
+        else:
+            st.enter_context(global_clock(read))
+        st.enter_context(_virtual_datetime(read))
+        yield
+
+
+@contextlib.contextmanager
+def _virtual_datetime(read_ns: t.Callable[[], int]):
+    """datetime.datetime.now() / utcnow() / today() follow the virtual clock for the duration (reached through the datetime
+    module by anyone, or through the class held by one of dpapi_ng's modules)."""
+    import datetime as _dt
+
+    real_cls = _dt.datetime
+
+    class VirtualDatetime(real_cls):  # type: ignore
+        @classmethod
+        def now(cls, tz=None):  # noqa
+            ns = int(read_ns())
+            return cls.fromtimestamp(ns // 10**9, tz).replace(microsecond=(ns // 1000) % 10**6)
+
+        @classmethod
+        def utcnow(cls):  # noqa
+            ns = int(read_ns())
+            return cls.fromtimestamp(ns // 10**9, _dt.timezone.utc).replace(tzinfo=None, microsecond=(ns // 1000) % 10**6)
+
+        @classmethod
+        def today(cls):  # noqa
+            return cls.now()
+
+    # the class as reached through the datetime module (whoever imports it, whenever) ...
+    undo: list[tuple] = [(_dt, "datetime", real_cls)]
+    _dt.datetime = VirtualDatetime  # type: ignore
+    # ... and where a module of the library holds the class itself (from datetime import datetime)
+    for name, mod in list(sys.modules.items()):
+        if not (name == "dpapi_ng" or name.startswith("dpapi_ng.")) or mod is None:
+            continue
+        for attr, val in list(vars(mod).items()):
+            if val is real_cls:
+                undo.append((mod, attr, val))
+                setattr(mod, attr, VirtualDatetime)
     try:
         yield
     finally:
-        module.time = real
+        for mod, attr, val in undo:
+            setattr(mod, attr, val)
 
 
 class StepMeter:
